@@ -422,8 +422,8 @@ fn run_k<const K: usize>(depth: usize, max_len: usize, max_plan: usize, rep: &mu
 pub fn run(tier: Tier) -> Report {
     let mut rep = Report::new("C13", tier, "model_checking");
     let (d2, d3, ml, mp) = match tier {
-        Tier::Quick => (6, 4, 6, 2),
-        Tier::Thorough => (8, 6, 6, 2),
+        Tier::Quick => (7, 5, 6, 2),
+        Tier::Thorough => (9, 7, 6, 2),
     };
     run_k::<2>(d2, ml, mp, &mut rep);
     run_k::<3>(d3, ml, mp, &mut rep);
